@@ -15,7 +15,11 @@ TraceLines == ndJsonDeserialize(IOEnv.TRACE)
 N == Len(TraceLines)
 Line == TraceLines[l]
 
-ObsMatches == \A f \in DOMAIN last'.exp : f \in DOMAIN Line.obs /\ ToJson(Line.obs[f]) = ToJson(last'.exp[f])
+Same(x, y) == ToJson(x) = ToJson(y)
+ObsMatches == \A f \in DOMAIN last'.exp :
+                 /\ f \in DOMAIN Line.obs
+                 /\ IF f = "st" THEN \A g \in DOMAIN last'.exp.st : g \in DOMAIN Line.obs.st /\ Same(Line.obs.st[g], last'.exp.st[g])
+                    ELSE Same(Line.obs[f], last'.exp[f])
 
 TInit == Init /\ l = 1
 
